@@ -40,7 +40,7 @@ type c20Step struct {
 
 func (s c20Step) String() string { return fmt.Sprintf("%s(c%d,%s)", s.Op, s.Name, s.Spec) }
 
-var c20InvalidSpecs = []string{"unknown-parent", "unknown-child", "no-hooks", "no-sync-hook", "webhook-no-url", "service-no-name", "negative-timeout", "etag-timeout-only", "etag-all", "crd-no-status", "customize"}
+var c20InvalidSpecs = []string{"unknown-parent", "unknown-child", "no-hooks", "no-sync-hook", "webhook-no-url", "service-no-name", "negative-timeout", "etag-timeout-only", "etag-all", "crd-no-status", "crd-scale-only", "crd-empty-subresources", "customize"}
 
 type c20World struct {
 	id     string
@@ -82,7 +82,16 @@ func newC20World(id string) (*c20World, error) {
 		return &apiextensionsv1.CustomResourceDefinition{ObjectMeta: metav1.ObjectMeta{Name: plural + ".ctest.dev"},
 			Spec: apiextensionsv1.CustomResourceDefinitionSpec{Group: "ctest.dev", Names: apiextensionsv1.CustomResourceDefinitionNames{Plural: plural, Kind: kind}, Versions: []apiextensionsv1.CustomResourceDefinitionVersion{older, v, newer}}}
 	}
-	w.k8s = fake.NewClientBuilder().WithScheme(c20Scheme()).WithObjects(crd("things", "Thing", true), crd("nostatuses", "NoStatus", false)).Build()
+	// parent CRDs whose used version has a subresources stanza without status (scale only / empty)
+	crdOther := func(plural, kind string, scale bool) *apiextensionsv1.CustomResourceDefinition {
+		v := apiextensionsv1.CustomResourceDefinitionVersion{Name: "v1", Served: true, Storage: true, Subresources: &apiextensionsv1.CustomResourceSubresources{}}
+		if scale {
+			v.Subresources.Scale = &apiextensionsv1.CustomResourceSubresourceScale{SpecReplicasPath: ".spec.replicas", StatusReplicasPath: ".status.replicas"}
+		}
+		return &apiextensionsv1.CustomResourceDefinition{ObjectMeta: metav1.ObjectMeta{Name: plural + ".ctest.dev"},
+			Spec: apiextensionsv1.CustomResourceDefinitionSpec{Group: "ctest.dev", Names: apiextensionsv1.CustomResourceDefinitionNames{Plural: plural, Kind: kind}, Versions: []apiextensionsv1.CustomResourceDefinitionVersion{v}}}
+	}
+	w.k8s = fake.NewClientBuilder().WithScheme(c20Scheme()).WithObjects(crd("things", "Thing", true), crd("nostatuses", "NoStatus", false), crdOther("scaleonlys", "ScaleOnly", true), crdOther("emptysubs", "EmptySub", false)).Build()
 	ctx := common.ControllerContext{K8sClient: w.k8s, Resources: e.Resources, DynClient: e.DynClient, DynInformers: e.DynInformers, McInformerFactory: e.McInformers, McClient: e.McClient, EventRecorder: env.NopRecorder{}}
 	w.mc = NewMetacontroller(ctx, e.McClient, 2, &common.ApplyOptions{Strategy: common.ApplyStrategyDynamicApply})
 	return w, nil
@@ -142,6 +151,11 @@ func (w *c20World) build(i int, specKind string) *v1alpha1.CompositeController {
 		cc.Spec.Hooks.Sync.Webhook.Etag = &v1alpha1.WebhookEtagConfig{Enabled: &tr, CacheTimeoutSeconds: &to, CacheCleanupSeconds: &cl}
 	case "crd-no-status":
 		cc.Spec.ParentResource.Resource = "nostatuses"
+	case "crd-scale-only":
+		// the CRD declares subresources, but status is not among them
+		cc.Spec.ParentResource.Resource = "scaleonlys"
+	case "crd-empty-subresources":
+		cc.Spec.ParentResource.Resource = "emptysubs"
 	case "customize":
 		cc.Spec.Hooks.Customize = hk("customize")
 	}
@@ -434,7 +448,7 @@ func runC20(t *testing.T, id string, steps []c20Step) {
 		if !wantRunning && inst != nil {
 			viol("running-without-valid-object:"+w.spec[i], fmt.Sprintf("after %s no hosted controller must be running (exists=%v spec=%s)", st, w.exists[i], w.spec[i]))
 		}
-		if w.exists[i] && !c20StartsOK(w.spec[i]) && w.spec[i] != "crd-no-status" && rerr == nil {
+		if w.exists[i] && !c20StartsOK(w.spec[i]) && !strings.HasPrefix(w.spec[i], "crd-") && rerr == nil {
 			viol("unusable-spec-not-reported:"+w.spec[i], "a configuration that cannot start was accepted without an error")
 		}
 		// (4) a no-op update / spurious reconcile keeps the instance and opens nothing
